@@ -281,6 +281,57 @@ CERTIFIABLE = {"sw1_uplink_disabled", "sw2_uplink_disabled", "sw2_b_port_disable
                "fw_port_b_disabled", "fw_off"}
 
 
+def class_patterns(sc: dict, info: dict) -> List[dict]:
+    """The frame class of the scenario = the packets its DENY rules are written for, as rule-shaped patterns (the class-aware
+    certificate `certifyC` checks that the blocking list denies every packet of every pattern; that the attacker side emits
+    nothing else is the theorem's closure hypothesis, validated on every transmitted frame by `_run_once`)."""
+    m = sc["block"]
+    pat = lambda **kw: dict({"proto": None, "src_ip": None, "src_wc": None, "dst_ip": None, "dst_wc": None}, **kw)
+    if m == "router_deny_src_exact":
+        return [pat(src_ip=info["a_ip"]), pat(src_ip=C_IP)]
+    if m == "router_deny_src_range":
+        return [pat(src_ip="10.0.1.0", src_wc="0.0.0.255")]
+    if m == "router_deny_dst_exact":
+        return [pat(dst_ip=info["b_ip"]), pat(dst_ip="10.0.2.0", dst_wc="0.0.0.255")]
+    if m == "router_deny_three_protocols":
+        return [pat(proto="tcp"), pat(proto="udp"), pat(proto="icmp")]
+    return [pat()]
+
+
+def arp_exempt(sc: dict) -> bool:
+    """genuine ARP packets circulate on the attacker side in addition to the class — only where no firewall blocks (a firewall
+    applies its lists to ARP as well)"""
+    return sc["family"] != "firewall"
+
+
+def _ip_int(x) -> int:
+    return int(IPv4Address(str(x)))
+
+
+def in_class(frame, patterns: List[dict], exempt: bool) -> bool:
+    """independent (integer) evaluation of class membership of a real frame"""
+    from primaite.simulator.network.protocols.arp import ARPPacket
+    if frame.ip is None:
+        return False
+    proto = str(getattr(frame.ip.protocol, "value", frame.ip.protocol)).lower()
+    if exempt and proto == "udp" and frame.udp is not None and int(frame.udp.dst_port) == 219 and isinstance(frame.payload, ARPPacket):
+        return True
+    for c in patterns:
+        ok = c["proto"] is None or c["proto"] == proto
+        for side, ip in (("src", frame.ip.src_ip_address), ("dst", frame.ip.dst_ip_address)):
+            base, wc = c[side + "_ip"], c[side + "_wc"]
+            if base is None:
+                continue
+            if wc is None:
+                ok = ok and _ip_int(ip) == _ip_int(base)
+            else:
+                keep = 0xFFFFFFFF ^ _ip_int(wc)
+                ok = ok and (_ip_int(ip) & keep) == (_ip_int(base) & keep)
+        if ok:
+            return True
+    return False
+
+
 def roles_for(sc: dict) -> Dict[str, str]:
     m = sc["block"]
     at = sc.get("at", "R1")
@@ -295,7 +346,7 @@ def roles_for(sc: dict) -> Dict[str, str]:
     }.get(m, {at: "routerDeny"} if m.startswith("router_deny") else {})
 
 
-def topo_lines(sc: dict, sim, N, prot: List[str]) -> List[str]:
+def topo_lines(sc: dict, sim, N, prot: List[str], info: Optional[dict] = None) -> List[str]:
     """The real network after the block, as protocol lines for the driver's cut certificate."""
     from primaite.simulator.network.hardware.node_operating_state import NodeOperatingState
     from primaite.simulator.network.hardware.nodes.network.firewall import Firewall
@@ -315,7 +366,11 @@ def topo_lines(sc: dict, sim, N, prot: List[str]) -> List[str]:
     for h in names:
         n = N[h]
         for p in sorted(n.network_interface):
-            lines.append(f"t-iface {idx[h]} {1 if n.network_interface[p].enabled else 0}")
+            ni = n.network_interface[p]
+            if getattr(ni, "ip_address", None) is not None and getattr(ni, "subnet_mask", None) is not None:
+                lines.append(f"t-iface {idx[h]} {1 if ni.enabled else 0} {ni.ip_address} {ni.subnet_mask}")
+            else:
+                lines.append(f"t-iface {idx[h]} {1 if ni.enabled else 0}")
         acls = {}
         if isinstance(n, Router):
             acls["router"] = n.acl
@@ -330,7 +385,12 @@ def topo_lines(sc: dict, sim, N, prot: List[str]) -> List[str]:
         a, b = link.endpoint_a, link.endpoint_b
         lines.append(f"t-wire {idx[a._connected_node.config.hostname]} {a.port_num - 1} "
                      f"{idx[b._connected_node.config.hostname]} {b.port_num - 1}")
+    o = lambda v: "-" if v is None else str(v)
+    for c in class_patterns(sc, info or {"a_ip": A_IP, "b_ip": "10.0.2.20"}):
+        lines.append(f"t-class {o(c['proto'])} {o(c['src_ip'])} {o(c['src_wc'])} {o(c['dst_ip'])} {o(c['dst_wc'])} - -")
+    lines.append(f"t-arp {1 if arp_exempt(sc) else 0}")
     lines.append("t-certify")
+    lines.append("t-certifyC")
     return lines
 
 
@@ -533,12 +593,30 @@ def _run_once(sc: dict, with_block: bool, post_ops: List[str], wrappers: bool, p
 
     barrier = set(roles_for(sc)) - set(prot) if with_block else set()
     to_prot = {"n": 0, "on": False}
+    cls = class_patterns(sc, info) if with_block else None
+    exempt = arp_exempt(sc)
+    closure = {"ok": 0, "bad": []}
+    prot_origin: Dict[int, Any] = {}
 
     def tx(self, sender_nic, frame):
         if to_prot["on"] and sender_nic._connected_node.config.hostname in barrier:
             rx = self.endpoint_b if self.endpoint_a is sender_nic else self.endpoint_a
             if rx is not None and rx._connected_node is not None and rx._connected_node.config.hostname in prot:
                 to_prot["n"] += 1
+        if sender_nic._connected_node.config.hostname in prot and id(frame) not in prot_origin:
+            # a frame a PROTECTED node created (B's own keep-alives, replies to what was permitted): when a rule that is specific to
+            # attacker sources lets it through, the blocking router forwards it into the attacker side; it is not attacker traffic
+            # and the theorem does not speak about B's own operations
+            prot_origin[id(frame)] = frame
+        if (to_prot["on"] and cls is not None and sender_nic._connected_node.config.hostname not in prot
+                and id(frame) not in prot_origin):
+            # closure hypothesis of the class cut theorem, validated: every frame an attacker-side node creates or forwards on
+            # behalf of the attacker side is in the class
+            if in_class(frame, cls, exempt):
+                closure["ok"] += 1
+            elif len(closure["bad"]) < 3:
+                closure["bad"].append(f"{sender_nic._connected_node.config.hostname}: {frame.ip.protocol} "
+                                      f"{frame.ip.src_ip_address}->{frame.ip.dst_ip_address}")
         d = denied.get(id(frame))
         if d is not None and sender_nic._connected_node is d[0]:
             frame_viol.append(f"{d[0].config.hostname} sent on a frame its {d[1]} denied")
@@ -569,13 +647,13 @@ def _run_once(sc: dict, with_block: bool, post_ops: List[str], wrappers: bool, p
             apply_block(sc, sim, N, info, tick)
         tick()
         at_block = {h: node_obs(N[h]) for h in prot}
-        topo = topo_lines(sc, sim, N, prot) if with_block else []
+        topo = topo_lines(sc, sim, N, prot, info) if (with_block or sc.get("_want_topo")) else []
         to_prot["on"] = True
         for op in post_ops:
             guarded(op)
         tick()
     return {"obs": {h: node_obs(N[h]) for h in prot}, "at_block": at_block, "topo": topo, "to_prot": to_prot["n"], "log": log, "errors": errors,
-            "frame_viol": frame_viol}
+            "frame_viol": frame_viol, "closure": closure}
 
 
 def _first_diff(a: Any, b: Any, path: str = "") -> Optional[str]:
@@ -612,10 +690,11 @@ def run_scenario(sc: dict, control: bool = True) -> dict:
     for v in sorted(set(attack["frame_viol"])):
         violations.append({"kind": "denied-frame-not-inert", "what": v})
     res = {"violations": violations, "log": attack["log"], "errors": attack["errors"], "nontrivial": None, "protected": prot,
-           "topo": attack["topo"]}
+           "topo": attack["topo"], "closure": attack["closure"], "topo_ctl": []}
     if control:
-        sc2 = dict(sc, missing_links=[])
+        sc2 = dict(sc, missing_links=[], _want_topo=True)
         ctl = _run_once(sc2, False, sc["post_ops"], False, prot)
+        res["topo_ctl"] = ctl["topo"]  # the same network WITHOUT the block: both certificates must reject it
         ctl_idle = _run_once(sc2, False, ["tick"] * len(sc["post_ops"]), False, prot)
         res["nontrivial"] = any(_first_diff(ctl_idle["obs"][h], ctl["obs"][h], h) for h in prot)
     return res
@@ -668,23 +747,46 @@ def run(ctx: Ctx):
     from harness.lib.core import run_driver
     all_lines: List[str] = []
     for _, _, res in results:
-        all_lines += res["topo"]
+        all_lines += res["topo"] + res["topo_ctl"]
     answers = run_driver("drv_c06", all_lines)
-    pos, cert_bad = 0, []
+    pos, cert_bad, certc_bad, ctl_bad, closure_bad = 0, [], [], [], []
     for name, sc, res in results:
         chunk = answers[pos:pos + len(res["topo"])]
         pos += len(res["topo"])
-        if "bad-op" in chunk:
+        chunk_ctl = answers[pos:pos + len(res["topo_ctl"])]
+        pos += len(res["topo_ctl"])
+        if "bad-op" in chunk or "bad-op" in chunk_ctl:
             raise RuntimeError(f"driver rejected a topology line of {name}")
-        res["certificate"] = chunk[-1]
-        ok = chunk[-1] == "certified"
+        res["certificate"] = chunk[-2]
+        res["certificateC"] = chunk[-1]
+        ok = chunk[-2] == "certified"
+        okc = chunk[-1] == "certifiedC"
         ctx.count(f"net:{'certified' if ok else 'uncertified'}:{sc['block']}")
+        ctx.count(f"net:{'certifiedC' if okc else 'uncertifiedC'}:{sc['block']}")
         if sc["block"] in CERTIFIABLE and not ok:
-            cert_bad.append(f"{name} {sc['family']}/{sc['block']}: {chunk[-1]}")
+            cert_bad.append(f"{name} {sc['family']}/{sc['block']}: {chunk[-2]}")
         if sc["block"] not in CERTIFIABLE and ok:
             cert_bad.append(f"{name} {sc['family']}/{sc['block']}: certified although the block is class-specific")
+        if not okc:
+            certc_bad.append(f"{name} {sc['family']}/{sc['block']}: {chunk[-1]}")
+        if chunk_ctl:
+            # non-vacuity of both certificates: the same network without the block must be rejected (a scenario whose block is
+            # a link that was never plugged in has no unblocked counterpart with that wire missing: its control has the wire)
+            if chunk_ctl[-2] == "certified" or chunk_ctl[-1] == "certifiedC":
+                ctl_bad.append(f"{name} {sc['family']}/{sc['block']}: unblocked network accepted ({chunk_ctl[-2]}, {chunk_ctl[-1]})")
+            ctx.count("net:unblocked-network-rejected" if not (chunk_ctl[-2] == "certified" or chunk_ctl[-1] == "certifiedC")
+                      else "net:unblocked-network-ACCEPTED")
+        ctx.count("net:class-closure-frames-checked", res["closure"]["ok"] + len(res["closure"]["bad"]))
+        if res["closure"]["bad"]:
+            closure_bad.append(f"{name} {sc['family']}/{sc['block']}: {res['closure']['bad'][0]}")
     ctx.oblige("rig:R-net the proved cut certificate accepts the real post-block network", "correspondence", not cert_bad,
                "; ".join(cert_bad[:5]))
+    ctx.oblige("rig:R-net the proved class-aware certificate (certifyC) accepts the real post-block network of EVERY scenario",
+               "correspondence", not certc_bad, "; ".join(certc_bad[:5]))
+    ctx.oblige("rig:R-net both certificates reject the same network without the block", "correspondence", not ctl_bad,
+               "; ".join(ctl_bad[:5]))
+    ctx.oblige("rig:R-net every frame put on a wire by an attacker-side node after the block is in the scenario's frame class "
+               "(closure hypothesis of C06_certifiedC_unchanged)", "correspondence", not closure_bad, "; ".join(closure_bad[:5]))
     for name, sc, res in results:
         ctx.cov["traces_validated_against_impl"] += 1
         ctx.case(sc, bool(res["nontrivial"]))
